@@ -30,7 +30,9 @@ func VerifSupercardRow() {
 	reg := registry.New()
 	acc := reg.Accounts().MustGet("Liabilities:Supercard")
 	p := parser{registry: reg, reader: csv.NewReader(strings.NewReader(text)), account: acc, builder: journal.New()}
-	err := p.parse()
+	var err error
+	stdout := v.CaptureStdout(func() { err = p.parse() })
+	v.Assert(stdout == "", "importer-writes-nothing-but-the-journal")
 	v.Assert(err == nil, "well-formed-row-is-imported")
 	if err != nil {
 		return
